@@ -292,4 +292,8 @@ example : WF witP ∧ QOK witP witQ ∧ witQ.tiny = 0 ∧
     simp [capAll, capOpt, alphaXl, alphaXu, hxl, hxu, htiny, hsd, hst, List.finRange]
     norm_num
   rw [this]; funext i; simp
+/-- the witness problem also meets the hypotheses of `tcg_ge_first_pass` / `tcgFull_ge_first_pass`: its Hessian is symmetric -/
+example : witP.H.IsSymm := by
+  ext i j; rfl
+
 end Cobyqa.Tcg
